@@ -53,6 +53,9 @@ pub struct Case {
 #[derive(Clone, Debug, Serialize, Deserialize)]
 pub struct C03Replay {
     pub hash_seed: u64,
+    /// another client has switched text consolidation off in the shared store
+    #[serde(default)]
+    pub cons_off: bool,
     /// texts parsed first: the other clients' live trees
     pub residents: Vec<String>,
     pub case: Case,
@@ -286,6 +289,12 @@ fn structural_cases(text: &str, out: &mut Vec<Case>) {
                 }
             }
         }
+        // torn write inside a start tag: an unclosed tag for every entry point
+        for cut in [t.name.1, (t.name.1 + t.end) / 2, t.end - 1] {
+            if cut > t.start + 1 && cut < t.end && text.is_char_boundary(cut) {
+                push("truncate-inside-start-tag", text[..cut].to_string(), Expect::Reject);
+            }
+        }
         if !t.empty {
             push("empty-cdata-after-start-tag", splice(text, t.end, 0, "<![CDATA[]]>"), Expect::Accept);
         }
@@ -374,6 +383,10 @@ fn structural_cases(text: &str, out: &mut Vec<Case>) {
                 push("unterminated-cdata", splice(text, pos, 0, "<![CDATA[ c"), Expect::Reject);
             }
             push("xml-pi-target", splice(text, pos, 0, "<?xml d?>"), Expect::Reject);
+            for junk in ["<?zz&?>", "<?zz<?>", "<?zz=1?>", "<? zz?>", "<??>"] {
+                push("malformed-pi", splice(text, pos, 0, junk), Expect::Reject);
+            }
+            push("pi-with-question-marks", splice(text, pos, 0, "<?zz ? >?>"), Expect::Accept);
         }
     }
     // document level
@@ -486,12 +499,17 @@ struct Store {
 
 fn canon_of(x: &Xot, root: Node) -> Result<String, Violation> {
     let mut budget = NODE_LIMIT;
+    // (the parser consolidates character data whatever the store-wide switch says, so adjacent
+    // text in a freshly parsed tree is always a defect)
     let t = read_tree(x, root, true, &mut budget)?;
     Ok(canon_r(&t))
 }
 
-fn new_store(residents: &[String]) -> Store {
+fn new_store(residents: &[String], cons_off: bool) -> Store {
     let mut x = Xot::new();
+    if cons_off {
+        x.set_text_consolidation(false);
+    }
     let mut res = vec![];
     for t in residents {
         if let Ok(r) = x.parse(t) {
@@ -648,7 +666,7 @@ fn judge(st: &mut Store, case: &Case, entry: Entry, stats: &mut Stats) -> Result
 
 fn run_replay(r: &C03Replay, stats: &mut Stats) -> Option<Violation> {
     hashseam::reseed(r.hash_seed);
-    let mut st = new_store(&r.residents);
+    let mut st = new_store(&r.residents, r.cons_off);
     judge(&mut st, &r.case, r.entry, stats).err()
 }
 
@@ -713,12 +731,16 @@ impl PropEngine for C03Engine {
         storage_cases(source.as_bytes(), &mut rng, thorough, &mut cases);
         encoded_cases(&source, &mut cases);
         stats.runs += 1;
-        let mut st = new_store(&residents);
+        let cons_off = rng.pct(30);
+        if cons_off {
+            stats.inc("fault/consolidation_switched_off_by_another_client");
+        }
+        let mut st = new_store(&residents, cons_off);
         let mut digest = Fnv::new();
         for case in &cases {
             for entry in ENTRIES {
                 if let Err(viol) = judge(&mut st, case, entry, stats) {
-                    let rep = C03Replay { hash_seed, residents: residents.clone(), case: case.clone(), entry };
+                    let rep = C03Replay { hash_seed, cons_off, residents: residents.clone(), case: case.clone(), entry };
                     return Some(EngineFailure { violation: viol, replay: serde_json::to_value(&rep).unwrap() });
                 }
             }
@@ -732,13 +754,13 @@ impl PropEngine for C03Engine {
         }
         // once the faults have stopped the store is still usable
         if let Err(viol) = check_residents(&st, "after the fault campaign") {
-            let rep = C03Replay { hash_seed, residents: residents.clone(), case: cases[0].clone(), entry: Entry::Parse };
+            let rep = C03Replay { hash_seed, cons_off, residents: residents.clone(), case: cases[0].clone(), entry: Entry::Parse };
             return Some(EngineFailure { violation: viol, replay: serde_json::to_value(&rep).unwrap() });
         }
         match real_call(|| st.x.parse(&source)) {
             Ok(Ok(_)) => {}
             other => {
-                let rep = C03Replay { hash_seed, residents: residents.clone(), case: cases[0].clone(), entry: Entry::Parse };
+                let rep = C03Replay { hash_seed, cons_off, residents: residents.clone(), case: cases[0].clone(), entry: Entry::Parse };
                 return Some(EngineFailure {
                     violation: v("failed-parse-damaged-store", format!("after the fault campaign the undamaged document no longer parses: {:?}", other.map(|r| r.map(|_| ()).map_err(|e| format!("{:?}", e))).map_err(|_| "panic"))),
                     replay: serde_json::to_value(&rep).unwrap(),
